@@ -389,14 +389,18 @@ func (env *SpecEnv) index(x *SExpr) (sval, error) {
 		mem := e.family(env.cur, memFam(es), memSort(es))
 		return sval{sel(sel(mem, slBase(a.t), arraySort(SInt, es)), add(slOff(a.t), env.f.asInt(i.t)), es), et}, nil
 	}
+	// SMT array valued spec term (ghost, or a whole heap family: heapfield(..)[ref])
+	if strings.HasPrefix(string(a.t.Sort), "(Array ") {
+		var et types.Type = types.Typ[types.Int]
+		if a.typ != nil {
+			et = a.typ // heapfield: the field's type
+		}
+		return sval{sel(a.t, i.t, elemOfArray(a.t.Sort)), et}, nil
+	}
 	if mt, ok := a.typ.Underlying().(*types.Map); ok {
 		ks, vs := e.U.sortOf(mt.Key(), false), e.U.sortOf(mt.Elem(), false)
 		valArr := e.family(env.cur, mapValFam(ks, vs), arraySort(SInt, arraySort(ks, vs)))
 		return sval{sel(sel(valArr, a.t, arraySort(ks, vs)), i.t, vs), mt.Elem()}, nil
-	}
-	// SMT array valued spec term (ghost)
-	if strings.HasPrefix(string(a.t.Sort), "(Array ") {
-		return sval{sel(a.t, i.t, elemOfArray(a.t.Sort)), types.Typ[types.Int]}, nil
 	}
 	return sval{}, fmt.Errorf("index on %s", a.t.Sort)
 }
@@ -656,7 +660,7 @@ func (env *SpecEnv) call(x *SExpr) (sval, error) {
 					return sval{}, fmt.Errorf("heapfield: no field %s", args[0].Name)
 				}
 				fs := e.structFieldSort(t, i)
-				return sval{e.family(env.cur, fieldFamily(t, i), arraySort(SInt, fs)), nil}, nil
+				return sval{e.family(env.cur, fieldFamily(t, i), arraySort(SInt, fs)), t.Underlying().(*types.Struct).Field(i).Type()}, nil
 			}
 		}
 		return sval{}, fmt.Errorf("heapfield: expected \"pkg.Type.field\"")
@@ -968,6 +972,21 @@ func (f *Frame) resolverAtPoint(blk *ssa.BasicBlock, idx int, phiEnv map[*ssa.Ph
 			if p.Name() == want {
 				if t, ok := f.vals[p]; ok {
 					return t, p.Type(), true
+				}
+			}
+		}
+		if f.undefArbitrary {
+			// a local of the function that has no value on this path (a
+			// postcondition evaluated at an early return): an arbitrary value, so
+			// the clause has to hold whatever it is
+			for _, b := range f.fn.Blocks {
+				for _, in := range b.Instrs {
+					if x, ok := in.(*ssa.DebugRef); ok && !x.IsAddr && x.Object() != nil && x.Object().Name() == want {
+						if v, isVar := x.Object().(*types.Var); isVar && !v.IsField() {
+							t := f.e.declare(f.pfx+"undef."+want, f.e.sortOf(x.X.Type()))
+							return t, x.X.Type(), true
+						}
+					}
 				}
 			}
 		}
